@@ -13,7 +13,7 @@ sizes.
 
 * `logFrom {} (eventsOf ps qs)` is the list of assignments `out_to_mol[particle][atom] = weight` the
   run makes, in execution order; `log_entry_source` says where each comes from: a weight the match of a
-  BLOCK mapping declares for that atom (`mem_graphMap`: the table the mapping definition has for the
+  BLOCK mapping declares for that atom (`match_weights_are_definition`: the table the mapping definition has for the
   `block_from` node the atom is matched with), under the key shift of `merge_molecule`; or weight 0 from
   every atom of the match to a particle nothing maps to; or a weight a MODIFICATION mapping declares,
   its node replaced by the particle it was created as / laid over.
@@ -119,8 +119,8 @@ tolerance) of the positions of exactly those atoms of the input molecule that an
 names for that particle and that have coordinates, each weighted by the LAST weight assigned to the
 pair (`declaredWeight`) times its centre weight (`centerFactor`: the attribute chosen by
 `selectWeight`, 1 when none is configured); a particle no assignment names is left untouched.
-`log_entry_source`, `mem_graphMap` and `mem_graphMapMod` reduce the assignments to the mapping
-definitions. -/
+`log_entry_source`, `match_weights_are_definition` and `mod_match_weights_are_definition` reduce the
+assignments to the mapping definitions. -/
 theorem position_from_mapping_definition (geom : List (Atom Rat)) (hg : (geom.map (·.key)).Nodup)
     (self : WeightArg) (ffVar : Option String) (ign : Bool) (ps : List Placement) (qs : List ModPlacement)
     (keys : List Int) (l : List (Option (Option (V3 Rat))))
@@ -192,6 +192,20 @@ theorem log_entry_source (es : List Ev) (hok : (es.foldl applyEv {}).err = none)
   cases e with
   | blk p => exact mem_blkEntries _ p a k w (applyBlock_tables _ p hpre hok').2.2
   | mod q => exact mem_modEntriesOf _ q hpre hok' a k w
+
+/-- `Mapping._graph_map`, block mappings: the weight table a match gives atom `a` IS the table the
+mapping definition (`MapSpec.weights` = `Mapping.mapping`) has for the `block_from` node `a` is matched
+with — together with `log_entry_source` this reduces every weight of a run to the definition -/
+theorem match_weights_are_definition (M : C01.MapSpec) (mt : List (Int × Int)) (p : Placement)
+    (h : C01.graphMap M mt = some p) (a : Int) (ws : List (Int × Rat)) :
+    (a, ws) ∈ p.molToBlock ↔ ∃ f, (a, f) ∈ mt ∧ M.weights.lookup f = some ws :=
+  mem_graphMap M mt p h a ws
+
+/-- the same for modification mappings -/
+theorem mod_match_weights_are_definition (M : C01.ModSpec) (mt : List (Int × Int)) (q : ModPlacement)
+    (h : C01.graphMapMod M mt = some q) (a : Int) (ws : List (Int × Rat)) :
+    (a, ws) ∈ q.molToMod ↔ ∃ f, (a, f) ∈ mt ∧ M.weights.lookup f = some ws :=
+  mem_graphMapMod M mt q h a ws
 
 /-! ## particles nothing maps to; shared atoms; independence -/
 
@@ -458,5 +472,15 @@ theorem spawned_shared_witness :
     ∧ declaredWeight (logFrom {} (eventsOf [blk, blk2] [])) 11 1 = some 1
     ∧ declaredWeight (logFrom {} (eventsOf [blk, blk2] [])) 11 2 = some 3 := by
   refine ⟨by decide +kernel, by decide +kernel, by decide +kernel, by decide +kernel, by decide +kernel⟩
+
+open PEx in
+/-- the hypotheses of `spawned_particle_undefined` (`assemble … = .ok r`) and of
+`declared_in_bounding_box` (non-negative declared weights and centre weights) are satisfiable -/
+example :
+    (match C01.assemble { atoms := [], edges := [] } [blkD] with | .ok _ => true | .error _ => false) = true
+    ∧ (∀ e ∈ logFrom {} (eventsOf [blk] [modOverlay]), e.2.1 = 1 → (0 : ℚ) ≤ e.2.2)
+    ∧ (∀ a ∈ geom, (0 : ℚ) ≤ centerFactor (some "mass") a)
+    ∧ declaredPos geom (some "mass") (logFrom {} (eventsOf [blk] [modOverlay])) 1 = some (some ⟨0, 3 / 2, 0⟩) := by
+  refine ⟨by decide +kernel, by decide +kernel, by decide +kernel, by decide +kernel⟩
 
 end C09
